@@ -87,7 +87,7 @@ fn classify(m: &RM, obs: &mut Obs) {
 }
 
 /// message -> payload -> message
-fn eval_roundtrip(c: &Case) -> Verdict {
+pub fn eval_roundtrip(c: &Case) -> Verdict {
     let lib_msg = c.msg.to_lib();
     let want_body = match c.msg.body() {
         Ok(b) => b,
